@@ -1,8 +1,31 @@
 import FordModel.Proto
 import FordModel.Reader
 import FordModel.InitialValue
+import FordModel.Include
+import FordModel.IncludeCfg
 namespace Ford
 open Proto
+
+def ierrName : Include.IErr → Str
+  | .reader .predocInline => "predoc-inline".toList
+  | .reader .predocAltInline => "predoc-alt-inline".toList
+  | .reader .altInline => "alt-inline".toList
+  | .reader .ampStart => "amp-start".toList
+  | .reader .internal => "internal".toList
+  | .notFound => "not-found".toList
+  | .popEmpty => "pop-empty".toList
+  | .depth => "depth".toList
+
+/-- `<name> <number of lines> <line>*` repeated `n` times, then the lines of the main file -/
+def parseFiles : Nat → List Str → Option (Include.FS × List Str)
+  | 0, rest => some ([], rest)
+  | n + 1, name :: cnt :: rest =>
+    let k := natOf cnt
+    if rest.length < k then none else
+    match parseFiles n (rest.drop k) with
+    | none => none
+    | some (fs, main) => some ((name, rest.take k) :: fs, main)
+  | _ + 1, _ => none
 
 def rerrNameInit : Show.RErr → Str
   | .badEscape => "bad-escape".toList
@@ -56,6 +79,21 @@ def dispatchC02 : List Str → Option (List Str)
         | .ok vs => some ("ok".toList :: (vs.map varFieldsInit).flatten)
         | .error e => some ["err".toList, rerrNameInit e]
       | _ => some ["bad-request".toList]
+    else if cmd == "c02.readfs".toList then
+      -- c02.readfs <doc> <pre> <alt> <preAlt> <nfiles> (<name> <nlines> <line>*)* <line of the main file>*
+      match args with
+      | d :: p :: a :: pa :: nf :: rest =>
+        match parseFiles (natOf nf) rest with
+        | none => some ["bad-request".toList]
+        | some (fs, main) =>
+          match Include.readFS Include.readerCfg { doc := d, pre := p, alt := a, preAlt := pa } fs (fs.length + 2) main with
+          | .ok items => some ("ok".toList :: items)
+          | .error e => some ["err".toList, ierrName e]
+      | _ => some ["bad-request".toList]
+    else if cmd == "c02.cfg".toList then
+      some ["ok".toList, (if Include.readerCfg.incPrologue then ['1'] else ['0']),
+            (if Include.readerCfg.incEpilogue then ['1'] else ['0']), (if Include.readerCfg.guarded then ['1'] else ['0']),
+            (if Include.readerCfg.kwLoose then ['1'] else ['0'])]
     else if cmd == "c02.cut".toList then
       -- c02.cut <statement> : masked statement, then the literals cut out of it
       match args with
